@@ -2354,9 +2354,12 @@ class Recipe:
                 if isinstance(dest, Container):
                     step.trash = {substance: step.to[0].contents[substance] for substance in step.substances_used}
                 else:  # Plate
-                    for well in step.to[0].wells.flatten():
-                        for substance in step.substances_used:
-                            step.trash[substance] = step.trash.get(substance, 0.) + well.contents.get(substance, 0.)
+                    # a substance can be removed from some wells and still be present in others
+                    for before, after in zip(step.to[0].wells.flatten(), step.to[1].wells.flatten()):
+                        for substance, value in before.contents.items():
+                            if substance not in after.contents:
+                                step.trash[substance] = step.trash.get(substance, 0.) + value
+                    step.substances_used = set(step.trash)
             elif operator == 'dilute':
                 dest = step.to[0]
                 dest_name = dest.name
